@@ -169,7 +169,8 @@ theorem Steps.trans {M : Machine} {obj : HostVal} {c : Bytes} {k k' : Nat} {x y 
 
 /-- How the instruction pointers of two bodies correspond (`R`), point by point: both at the end; or the
     same instruction on both sides (jump operands corresponding); or a window that each side crosses in
-    its own number of turns, arriving with the same stack and corresponding states. -/
+    its own number of turns, arriving with the same stack and corresponding states (when the second side
+    needs no turn at all, the first side moves forward: needed for the converse simulation). -/
 structure BodySim (M M' : Machine) (obj : HostVal) (c c' : Bytes) (R : Nat → Nat → Prop) : Prop where
   start : R 0 0
   empty : c'.isEmpty = c.isEmpty
@@ -182,7 +183,7 @@ structure BodySim (M M' : Machine) (obj : HostVal) (c c' : Bytes) (R : Nat → N
           (i.op ≠ .jump ∧ i.op ≠ .jumpIfFalse ∧ i'.arg = i.arg ∧ R (ip + i.op.length) (ip' + i.op.length))))
     ∨ (∀ stack st st', StEq false st st' → ∃ k k' e e' stack1 st1 st1', 0 < k ∧
          Steps M obj c k (ip, stack, st) (e, stack1, st1) ∧ Steps M' obj c' k' (ip', stack, st') (e', stack1, st1') ∧
-         R e e' ∧ StEq false st1 st1')
+         R e e' ∧ StEq false st1 st1' ∧ (0 < k' ∨ (ip < e ∧ e ≤ c.length)))
 
 def BRel (M M' : Machine) (obj : HostVal) (c c' : Bytes) : Prop := ∃ R, BodySim M M' obj c c' R
 
